@@ -123,11 +123,19 @@ class Ctx:
         self.posts = 0
 
 
+_RESULTS = {}
+
+
 def react(script):
     from async_upnp_client.exceptions import UpnpActionError, UpnpValueError
     k = script[0]
     if k == "return":
-        return {n: V.dec(j) for n, j in script[1]}
+        # a handler may keep its answer around (a status dict, a constant): equal scripted results are ONE dict object
+        # for the life of a case, so a server that consumes or edits the mapping it is handed shows on the next call
+        key = json.dumps(script[1], sort_keys=True, default=str)
+        if key not in _RESULTS:
+            _RESULTS[key] = {n: V.dec(j) for n, j in script[1]}
+        return _RESULTS[key]
     if k == "error":
         raise UpnpActionError(error_code=script[1], error_desc="scripted")
     if k == "valueerror":
@@ -541,6 +549,9 @@ def call_ops(rng, k, s, n):
             kw.append(["Extra", V.enc(1)])                        # ignored by the client
         rng.shuffle(kw)
         ops.append(["call", k, a["name"], kw, mk_script(rng, s, a)])
+        if rng.random() < 0.25:
+            # the same action again, the handler answering with the very same result (see react: one dict object)
+            ops.append(["call", k, a["name"], [list(p) for p in kw], ops[-1][4]])
     return ops
 
 
@@ -797,6 +808,7 @@ class Plugin:
 
     # ------------------------------------------------------------------ implementation
     def run_impl(self, case):
+        _RESULTS.clear()
         if self._loop is None:
             self._loop = asyncio.new_event_loop()
             # event tasks of a service whose __init__ failed half-way die on their own (C15's business): keep stderr quiet
